@@ -168,6 +168,74 @@ fn is_cmp(op: &str) -> bool {
     matches!(op, "eq" | "lt" | "gt" | "le" | "ge")
 }
 
+
+const MOD_DIR: &str = "/verif/.build/C10/mods";
+
+/// Code inside a required module is compiled differently from top-level code (mangled module-level
+/// procedures, other call op codes, the JIT's arithmetic helpers): `steel file.scm` runs a file as a module.
+/// The module for an operation (and, for small integer literals, for an operation + right operand) is written
+/// once; every shape program requires it (a repeated `require` is a cache hit).
+fn module_shapes(op: &str, f: &str, args: &[&str], wrap: &dyn Fn(String) -> String) -> Vec<(&'static str, String)> {
+    let mut v = Vec::new();
+    let _ = std::fs::create_dir_all(MOD_DIR);
+    let write_once = |path: &str, text: String| {
+        if !std::path::Path::new(path).exists() {
+            let tmp = format!("{}.{}.tmp", path, std::process::id());
+            if std::fs::write(&tmp, text).is_ok() {
+                let _ = std::fs::rename(&tmp, path);
+            }
+        }
+    };
+    if args.len() == 2 {
+        let path = format!("{}/{}.scm", MOD_DIR, op);
+        write_once(
+            &path,
+            format!(
+                "(provide c10m-{op}-locals c10m-{op}-map c10m-{op}-branch)\n(define (c10m-{op}-k x y) {body})\n(define (c10m-{op}-locals x y) (c10m-{op}-k x y))\n(define (c10m-{op}-map x y) (car (map c10m-{op}-k (list x) (list y))))\n(define (c10m-{op}-branch x y) (if (c10m-{op}-k x y) #t #f))\n",
+                op = op,
+                body = wrap(format!("({} x y)", f))
+            ),
+        );
+        v.push(("mod-locals", format!("(require \"{}\") (c10m-{}-locals c10-a c10-b)", path, op)));
+        v.push(("mod-map", format!("(require \"{}\") (c10m-{}-map c10-a c10-b)", path, op)));
+        if is_cmp(op) {
+            v.push(("mod-branch", format!("(require \"{}\") (c10m-{}-branch c10-a c10-b)", path, op)));
+        }
+        // right operand a small integer literal
+        if let Ok(k) = args[1].parse::<i64>() {
+            if (-2..=256).contains(&k) {
+                let id = if k < 0 { format!("m{}", -k) } else { format!("{}", k) };
+                let path = format!("{}/{}_lit_{}.scm", MOD_DIR, op, id);
+                write_once(
+                    &path,
+                    format!(
+                        "(provide c10m-{op}-lit{id} c10m-{op}-litmap{id} c10m-{op}-litloop{id})\n(define (c10m-{op}-k{id} x) {body})\n(define (c10m-{op}-lit{id} x) (c10m-{op}-k{id} x))\n(define (c10m-{op}-litmap{id} x) (car (map c10m-{op}-k{id} (list x))))\n(define (c10m-{op}-litloop{id} x i acc) (if (= i 0) acc (c10m-{op}-litloop{id} x (- i 1) (c10m-{op}-k{id} x))))\n",
+                        op = op,
+                        id = id,
+                        body = wrap(format!("({} x {})", f, k))
+                    ),
+                );
+                v.push(("mod-lit-r", format!("(require \"{}\") (c10m-{}-lit{} c10-a)", path, op, id)));
+                v.push(("mod-lit-map", format!("(require \"{}\") (c10m-{}-litmap{} c10-a)", path, op, id)));
+                v.push(("mod-lit-loop", format!("(require \"{}\") (c10m-{}-litloop{} c10-a 3 #f)", path, op, id)));
+            }
+        }
+    } else {
+        let path = format!("{}/{}.scm", MOD_DIR, op);
+        write_once(
+            &path,
+            format!(
+                "(provide c10m-{op}-locals c10m-{op}-map)\n(define (c10m-{op}-k x) {body})\n(define (c10m-{op}-locals x) (c10m-{op}-k x))\n(define (c10m-{op}-map x) (car (map c10m-{op}-k (list x))))\n",
+                op = op,
+                body = wrap(format!("({} x)", f))
+            ),
+        );
+        v.push(("mod-locals", format!("(require \"{}\") (c10m-{}-locals c10-a)", path, op)));
+        v.push(("mod-map", format!("(require \"{}\") (c10m-{}-map c10-a)", path, op)));
+    }
+    v
+}
+
 /// All syntactic shapes of one request, as (name, program) pairs.  `n` makes the names unique.
 fn shapes(op: &str, f: &str, args: &[&str], n: usize, all: bool) -> Vec<(&'static str, String)> {
     let mut v = Vec::new();
@@ -273,6 +341,9 @@ fn shapes(op: &str, f: &str, args: &[&str], n: usize, all: bool) -> Vec<(&'stati
             ));
         }
     }
+    if all && op != "roundtrip" {
+        v.extend(module_shapes(op, f, args, &wrap));
+    }
     v
 }
 
@@ -377,7 +448,10 @@ fn main() {
                     .into_iter()
                     .filter(|(name, _)| {
                         !has_float
-                            || !matches!(*name, "fold" | "lit-r" | "lit-l" | "prim-lit" | "branch-lit" | "map-lit-r")
+                            || !matches!(
+                                *name,
+                                "fold" | "lit-r" | "lit-l" | "prim-lit" | "branch-lit" | "map-lit-r" | "mod-lit-r" | "mod-lit-map" | "mod-lit-loop"
+                            )
                     })
                     .collect();
                 for (i, (name, prog)) in shape_list.into_iter().enumerate() {
